@@ -152,6 +152,7 @@ package common
 //@   requires [bound-size] (lessThan != nil && val(lessThan) > 0) ==> bitlen(val(lessThan)) <= 5000
 //@   ensures [C19.nil-iff-bad-bound] result == nil <==> (lessThan == nil || val(lessThan) <= 0)
 //@   ensures [C19.in-range] result != nil ==> (fresh(result) && 0 <= val(result) && val(result) < val(lessThan))
+//@   assume-ensures [ND-sample-nonzero] (result != nil && bitlen(val(lessThan)) >= 250) ==> val(result) != 0
 
 //@ func GetRandomPositiveRelativelyPrimeInt
 //@   props C06 C19
